@@ -1576,7 +1576,7 @@ func (a *Agent) TaskPrepare(Command int, Info any, Message *map[string]string, C
 			break
 
 		case DEMON_PIVOT_SMB_DISCONNECT:
-			var AgentID, err = strconv.ParseInt(Param, 16, 32)
+			var AgentID, err = strconv.ParseUint(Param, 16, 32)
 			if err != nil {
 				return nil, err
 			}
@@ -1600,7 +1600,7 @@ func (a *Agent) TaskPrepare(Command int, Info any, Message *map[string]string, C
 		var (
 			SubCommand string
 			Param      string
-			FileID     int64
+			FileID     uint64
 		)
 
 		if val, ok := Optional["Command"]; ok {
@@ -1623,7 +1623,7 @@ func (a *Agent) TaskPrepare(Command int, Info any, Message *map[string]string, C
 			break
 
 		case "stop":
-			FileID, err = strconv.ParseInt(Param, 16, 32)
+			FileID, err = strconv.ParseUint(Param, 16, 32)
 			if err != nil {
 				return nil, err
 			}
@@ -1635,7 +1635,7 @@ func (a *Agent) TaskPrepare(Command int, Info any, Message *map[string]string, C
 			break
 
 		case "resume":
-			FileID, err = strconv.ParseInt(Param, 16, 32)
+			FileID, err = strconv.ParseUint(Param, 16, 32)
 			if err != nil {
 				return nil, err
 			}
@@ -1647,7 +1647,7 @@ func (a *Agent) TaskPrepare(Command int, Info any, Message *map[string]string, C
 			break
 
 		case "remove":
-			FileID, err = strconv.ParseInt(Param, 16, 32)
+			FileID, err = strconv.ParseUint(Param, 16, 32)
 			if err != nil {
 				return nil, err
 			}
@@ -1735,9 +1735,9 @@ func (a *Agent) TaskPrepare(Command int, Info any, Message *map[string]string, C
 			break
 
 		case "rportfwd remove":
-			var SocketID int64
+			var SocketID uint64
 
-			SocketID, err = strconv.ParseInt(Param, 16, 32)
+			SocketID, err = strconv.ParseUint(Param, 16, 32)
 			if err != nil {
 				return nil, err
 			}
